@@ -414,6 +414,17 @@ def check(prop, tier, seed):
             results[ob["harness"]] = res
             print(f"  [{res['status']:8}] {ob['harness']}  {res.get('time_s')}s peak={res.get('peak_mb')}MB", flush=True)
 
+    # A tool that dies of "out of memory" while its own peak is far below the cap was starved by
+    # the host (other jobs), not by the formula: such an obligation is run once more, alone.
+    for ob in obs:
+        res = results[ob["harness"]]
+        cap_mb = ob.get("mem_gb", 10) * 1024
+        if res["status"] in ("oom", "error") and (res.get("peak_mb") or 0) < 0.6 * cap_mb:
+            res2, _ = run_kani(feature, ob)
+            res2["retried"] = True
+            results[ob["harness"]] = res2
+            print(f"  [{res2['status']:8}] {ob['harness']}  {res2.get('time_s')}s peak={res2.get('peak_mb')}MB (retry after {res['status']} at {res.get('peak_mb')}MB)", flush=True)
+
     violations, inconclusive, known_hits = [], [], []
     records = []
     for ob in obs:
